@@ -250,6 +250,10 @@ class Engine:
         k = v.k
         if k == 'bool':
             return v.t
+        if k == 'real':
+            return v.t != 0
+        if k == 'earr':
+            raise Unsupported('truth value of an array')
         if k == 'int':
             return v.t != 0
         if k == 'none':
